@@ -6,6 +6,7 @@ import itertools
 from collections import defaultdict
 
 from core import fseq, fseqs, fcells, fbool, pseq, pseqs, pcells, guarded
+import used
 
 PROP = "C17"
 RULE = ("exhaustive: every subset A of S_0..S_3 (2^10) x every 1<=m<=n<=3 x the three input representations "
@@ -125,12 +126,18 @@ def impl_bisc(rep, m, n, Atok):
     key = (rep, m, n, Atok)
     if key in _cache:
         return _cache[key]
-    A = [Perm(p) for p in pseqs(Atok)]
+    used.begin()
 
     def f():
+        A = _PL(Atok)
+        inp = used.obj(("input", rep), lambda: make_input(rep, A, n))
         with quiet():
-            return fdict(B.bisc(make_input(rep, A, n), m, n))
+            return fdict(B.bisc(inp, m, n))
     r = guarded(f)
+    used.T.rewind()
+    r2 = guarded(f)             # once more on the same permutation objects and the same input container
+    if r2 != r:
+        r = "ERR:" + used.unstable(r, r2)      # (an ERR: answer: run() and the oracle parse the answers of bisc lines)
     if len(_cache) > 64:
         _cache.clear()
     _cache[key] = r
@@ -141,15 +148,42 @@ def pn(tok):
     return None if tok == "N" else int(tok)
 
 
+def _PL(tok):
+    """the permutations of a token as *used* objects (hashed, compared, searched with), built once per line"""
+    return [used.obj(("P", i, p), lambda p=p: Perm(p), lambda o: used.warm_perm(o, 0)) for i, p in enumerate(pseqs(tok))]
+
+
+def _P1(tok):
+    return used.obj(("P1", tok), lambda: Perm(pseq(tok)), lambda o: used.warm_perm(o, 1))
+
+
+def _SG(tok):
+    return used.obj(("SG", tok), lambda: pdict(tok, mk=Perm))
+
+
 def impl(op, a):
     if op == "bisc":
         return impl_bisc(a[0], int(a[1]), pn(a[2]), a[3])
+    if op in ("auto", "autom"):
+        return _impl(op, a)
+    used.begin()
+    r1 = _impl(op, a)
+    used.T.rewind()
+    r2 = _impl(op, a)           # once more on the same permutation objects, dictionaries and learned patterns
+    return r1 if r1 == r2 else "ERR:" + used.unstable(r1, r2)
+
+
+def _impl(op, a):
     if op == "mine":
         def f():
-            A = [Perm(p) for p in pseqs(a[2])]
-            D = defaultdict(list)
-            for p in A:
-                D[len(p)].append(p)
+            A = _PL(a[2])
+
+            def mk():
+                D = defaultdict(list)
+                for p in A:
+                    D[len(p)].append(p)
+                return D
+            D = used.obj(("D",), mk)
             with quiet():
                 ci, gp = S.mine(D, int(a[0]), int(a[1]))
             return "%s#%s" % (fseq(ci), fdict(gp))
@@ -158,11 +192,11 @@ def impl(op, a):
         # the implementation's own sanity checkers / private containment tests
         def f():
             m, n = int(a[0]), int(a[1])
-            A = [Perm(p) for p in pseqs(a[2])]
-            SG = pdict(a[3], mk=Perm)
-            Ad = {k: [p for p in A if len(p) == k] for k in range(n + 1)}
+            A = _PL(a[2])
+            SG = _SG(a[3])
+            Ad = used.obj(("Ad",), lambda: {k: [p for p in A if len(p) == k] for k in range(n + 1)})
             As = set(A)
-            Bd = {k: [p for p in Perm.of_length(k) if p not in As] for k in range(m + 1)}
+            Bd = used.obj(("Bd",), lambda: {k: [p for p in Perm.of_length(k) if p not in As] for k in range(m + 1)})
             with quiet():
                 s = S.patterns_suffice_for_good(SG, n, Ad)[0]
                 c = S.patterns_suffice_for_bad(SG, m, Bd)[0]
@@ -182,29 +216,29 @@ def impl(op, a):
         return guarded(f)
     if op == "pcont":
         return guarded(lambda: fbool(S.perm_contains_cl_patt_many_shadings(
-            Perm(pseq(a[0])), Perm(pseq(a[1])), pshs(a[2]))))
+            _P1(a[0]), _P1(a[1]), used.obj(("sh",), lambda: pshs(a[2])))))
     if op == "mcont":
         return guarded(lambda: fbool(S.mesh_contains_cl_patt_many_shadings(
-            Perm(pseq(a[0])), pcells(a[1]), Perm(pseq(a[2])), pshs(a[3]))))
+            _P1(a[0]), pcells(a[1]), _P1(a[2]), used.obj(("sh",), lambda: pshs(a[3])))))
     if op == "maxmesh":
-        return guarded(lambda: fcells(S.maximal_mesh_pattern_of_occurrence(Perm(pseq(a[0])), pseq(a[1]))))
+        return guarded(lambda: fcells(S.maximal_mesh_pattern_of_occurrence(_P1(a[0]), pseq(a[1]))))
     if op == "suff":
         def f():
-            A = [Perm(p) for p in pseqs(a[3])]
+            A = _PL(a[3])
             K = max([0] + [len(p) for p in A])
-            D = {k: [p for p in A if len(p) == k] for k in range(K + 1)}
+            D = used.obj(("D",), lambda: {k: [p for p in A if len(p) == k] for k in range(K + 1)})
             fn = S.patterns_suffice_for_good if a[0] == "good" else S.patterns_suffice_for_bad
             with quiet():
-                val, lst = fn(pdict(a[4], mk=Perm), int(a[1]), D, stop_on_failure=(a[2] == "T"))
+                val, lst = fn(_SG(a[4]), int(a[1]), D, stop_on_failure=(a[2] == "T"))
             return "%s:%s" % (fbool(val), fseqs(lst))
         return guarded(f)
     if op == "cleanup":
         def f():
             bm, lim = int(a[0]), int(a[1])
-            As = set(Perm(p) for p in pseqs(a[2]))
-            Bd = {k: [p for p in Perm.of_length(k) if p not in As] for k in range(bm + 1)}
+            As = set(_PL(a[2]))
+            Bd = used.obj(("Bd",), lambda: {k: [p for p in Perm.of_length(k) if p not in As] for k in range(bm + 1)})
             with quiet():
-                bases, d = S.run_clean_up(pdict(a[3], mk=Perm), Bd, bm, limit_monitors=lim)
+                bases, d = S.run_clean_up(_SG(a[3]), Bd, bm, limit_monitors=lim)
                 res = sorted(fdict(S.to_sg_format(b, d)) for b in bases)
             return "&".join(res) or "none"
         return guarded(f)
